@@ -28,6 +28,8 @@ func Run(c *common.Ctx) error {
 	nHist := c.Pick(18, 150)
 	steps := c.Pick(25, 60)
 	cfgs := Configs(c)
+	cf := c.Cases("cases_c04", hist.CoqHeader, hist.CoqType, "mismatches")
+	cf.Shard = 3
 	for i := 0; i < nHist; i++ {
 		cfg := cfgs[i%len(cfgs)]
 		h, err := hist.New(c, c.Rng.Fork(), cfg)
@@ -40,6 +42,7 @@ func Run(c *common.Ctx) error {
 		h.Run(steps)
 		h.CheckCrash(c, "C04")
 		h.CheckChecksum(c)
+		cf.Add(h.CoqCase(), map[string]any{"kind": "history", "page_size": cfg.PageSize, "regime": cfg.Regime, "big_endian_wal": cfg.BigEndian, "steps": h.Steps})
 		c.Count("history_steps", len(h.Obs))
 		for _, ob := range h.Obs {
 			c.Count("op_"+ob.Op, 1)
